@@ -6,11 +6,11 @@
    groupState (c.groups[g], members and assignment map sorted by id), the stored
    ConsumerGroup (sorted) and the committed offsets of the probe keys.
    [check_case] replays the operations on the model and compares everything. *)
-From KS Require Import lib.Base model.Coordinator.
+From KS Require Import lib.Base model.Coordinator model.CoordinatorFaults.
 Open Scope Z_scope.
 
 Record obs := mkObs {
-  o_reply : reply;
+  o_reply : option reply;           (* None: the method returned a Go error, no response *)
   o_mem : option group;
   o_store : option pgroup;
   o_offs : list Z
@@ -19,7 +19,7 @@ Record obs := mkObs {
 Record case := mkCase {
   k_env : env;
   k_keys : list (Z * Z);
-  k_ops : list op;
+  k_ops : list (op * fault);        (* each operation with the store faults injected into it *)
   k_obs : list obs
 }.
 
@@ -64,20 +64,20 @@ Definition reply_eqb (a b : reply) : bool :=
   | _, _ => false
   end.
 
-Definition obs_of (ks : list (Z * Z)) (s : st) (r : reply) : obs :=
+Definition obs_of (ks : list (Z * Z)) (s : st) (r : option reply) : obs :=
   mkObs r (s_mem s) (s_store s) (map (fun k => off_get k (s_off s)) ks).
 
 Definition obs_eqb (a b : obs) : bool :=
-  reply_eqb (o_reply a) (o_reply b) &&
+  opt_eqb reply_eqb (o_reply a) (o_reply b) &&
   opt_eqb group_eqb (o_mem a) (o_mem b) &&
   opt_eqb pgroup_eqb (o_store a) (o_store b) &&
   list_eqb Z.eqb (o_offs a) (o_offs b).
 
-Fixpoint check_from (E : env) (ks : list (Z * Z)) (s : st) (ops : list op) (os : list obs) : bool :=
+Fixpoint check_from (E : env) (ks : list (Z * Z)) (s : st) (ops : list (op * fault)) (os : list obs) : bool :=
   match ops, os with
   | [], [] => true
   | o :: ops', ob :: os' =>
-      let '(s', r) := step E s o in
+      let '(s', r) := stepf E s (fst o) (snd o) in
       obs_eqb (obs_of ks s' r) ob && check_from E ks s' ops' os'
   | _, _ => false
   end.
@@ -86,10 +86,10 @@ Definition check_case (k : case) : bool :=
   check_from (k_env k) (k_keys k) init (k_ops k) (k_obs k).
 
 (* index of the first disagreeing operation (debugging aid for replays) *)
-Fixpoint first_diff (E : env) (ks : list (Z * Z)) (s : st) (ops : list op) (os : list obs) (i : Z) : option (Z * obs) :=
+Fixpoint first_diff (E : env) (ks : list (Z * Z)) (s : st) (ops : list (op * fault)) (os : list obs) (i : Z) : option (Z * obs) :=
   match ops, os with
   | o :: ops', ob :: os' =>
-      let '(s', r) := step E s o in
+      let '(s', r) := stepf E s (fst o) (snd o) in
       if obs_eqb (obs_of ks s' r) ob then first_diff E ks s' ops' os' (i + 1)
       else Some (i, obs_of ks s' r)
   | _, _ => None
